@@ -42,6 +42,32 @@ type faultConn struct {
 	// them back).  Payloads stay a few bytes in the case terms while a loopback TCP connection carries enough
 	// data for the kernel buffers to fill and the session's Write to block on a slowly reading peer.
 	amp int
+
+	closeErr    bool // Close closes the connection and then reports an error (as a tls.Conn whose peer is gone does)
+	closeWrites int  // CloseWrite calls (only through faultConnHC)
+}
+
+var errInjectedClose = errors.New("c16: injected error returned by Close after closing")
+
+// faultConnHC is what a session over TCP is given: the same wrapper, but like *net.TCPConn it can also shut down
+// the write direction only.  A session that merely half-closes its connection is seen as not having closed it.
+type faultConnHC struct {
+	*faultConn
+}
+
+func (c *faultConnHC) CloseWrite() error {
+	c.mu.Lock()
+	c.closeWrites++
+	c.mu.Unlock()
+	return c.under.(*net.TCPConn).CloseWrite()
+}
+
+// forSession returns the net.Conn handed to the session.
+func (c *faultConn) forSession() net.Conn {
+	if _, ok := c.under.(*net.TCPConn); ok {
+		return &faultConnHC{c}
+	}
+	return c
 }
 
 func newFaultConn(under net.Conn, id int) *faultConn {
@@ -138,8 +164,13 @@ func (c *faultConn) injectWrite(kind int) {
 func (c *faultConn) Close() error {
 	c.mu.Lock()
 	c.closeCalls++
+	ce := c.closeErr
 	c.mu.Unlock()
-	return c.under.Close()
+	err := c.under.Close()
+	if ce {
+		return errInjectedClose
+	}
+	return err
 }
 
 func (c *faultConn) closed() bool {
